@@ -22,6 +22,18 @@ claim('C18', 'E1 rxsmt', 'bounded SMT (z3 QF_BV): bytes-call regexes vs str-call
   'Regex level of C18: for each (patterns, flags, exclude) the verdict of the bytes matcher on b equals the verdict of the str matcher on the Latin-1 decoding of b for all b up to N (0..0xFF; 0..0x7F in case-insensitive modes); TypeError clause concretely. glob()/WcMatch str-vs-bytes results are in the symfs checks when present.', E1NOTE, 'DESIGN.md 6 C18')
 claim('C20', 'E1 rxsmt', 'bounded SMT (z3 QF_BV): language of compile(p, RAWCHARS) == language of compile(D(p)) with an independent decoder D; exception classes compared concretely',
   'For every enumerated escape-token string p (str and bytes, fnmatch and glob, with/without FORCEWIN): RAWCHARS compile vs compile of the independently decoded pattern, and non-RAWCHARS compile vs the plainly unescaped pattern, as language equalities over a symbolic name; SyntaxError/lookup errors vs the decoder prediction.', E1NOTE + ' The hand-written decoder is the reference reading.', 'DESIGN.md 6 C20')
+E2NOTE = 'Trusted: CrossHair (crosshair-tool 0.0.110) path exploration and z3; only int/bool parameters are symbolic, strings are concrete; a reachability twin (postcondition that must be refuted) guards against vacuity; a counterexample is re-evaluated in a plain interpreter and replayed through the public API before VIOLATION; Not confirmed / Unable to meet precondition / NotDeterministic are exit 3.'
+claim('C11', 'E2 CrossHair', 'symbolic execution (CrossHair + z3) of the real expansion loops over symbolic limit and expansion counts; concrete boundary layer',
+  'harness/xh_c11.py runs the real compile_pattern / translate / compile / Glob.__init__ with bracex replaced by a contract-obeying stub driven by symbolic counts; 14 conditions (entry point x duplicates x inline-vs-exclude=, plus call history) must be Confirmed over all paths: raise iff over the limit (three zones), work bounded, budget handed to bracex in [1, L]. Defaults and the constants 32/33/1000/1001 and {1..100000000} are run concretely through every public entry point.', E2NOTE + ' Stubs: _wcparse.expand, _compile, WcParse, glob._GlobSplit.', 'DESIGN.md 5, 6 C11')
+claim('C15', 'E2 CrossHair', 'symbolic execution (CrossHair + z3) of the real WcMatch walker over symbolic kill / poll-flip / raising hook indices',
+  'harness/xh_c15.py: a recording WcMatch subclass on a real scratch tree; symbolic k (kill from the k-th hook invocation), j (abort flag flips before the j-th is_aborted poll: model of another thread), e (e-th hook raises); prefix-exactness, nothing beyond the file in progress, aborted until reset, complete re-run, on_reset once per run, skipped counter, exactly-one routing, values passed through.', E2NOTE + ' Real preemptive thread schedules are outside the claim (poll-point reduction).', 'DESIGN.md 6 C15')
+E3NOTE = 'Trusted: z3 (feasibility of each decision); the executor and stub os layer engine/symfs.py (validated every run by re-running sampled explored trees on materialised real directories and comparing observations); for reference-walk oracles engine/refwalk.py + engine/spec.py. Every failing path is materialised as a real tree and re-checked by the same check function against the real os before VIOLATION. Bounds: templates of <= 6 slots / <= 4 link targets with concrete names; path cap per (template, parameters) stated in evidence.'
+claim('C04', 'E3 symfs', 'dynamic symbolic execution of the real glob walker and REALPATH matcher over a symbolic directory tree (z3 decides entry kinds / link targets)',
+  'For each (template, pattern, flags, root mode) every feasible tree is explored; on each, the set glob() returns must equal the set of candidate paths (all slots, with and without trailing separator, spelled through potential links, plus glob results, an absolute and a missing path) accepted by globmatch with REALPATH. Both sides are the real code on the same decided tree.', E3NOTE, 'DESIGN.md 4, 6 C04')
+claim('C05', 'E3 symfs', 'dynamic symbolic execution of the real glob walker over a symbolic tree vs an independent reference walk on the same path condition',
+  'glob() results vs the MUST/MAY sets of a segment-by-segment reference interpretation of the generator AST (literal segments followed as written, wildcards against listings with the C02/C03 meaning, globstar traversal rules, . and .. only where written unless SCANDOTDIR). The Bash 5.2 clause is not decided (external process).', E3NOTE, 'DESIGN.md 4, 6 C05')
+claim('C06', 'E3 symfs', 'dynamic symbolic execution with listing monitors: every os.scandir of the real walkers recorded on symbolic trees with links and cycles',
+  'No directory is listed through a symlink at a position the pattern does not go through (reference walk supplies the allowed set); exceeding the listing budget without FOLLOW / *** / SYMLINKS is a non-termination witness; REALPATH globmatch vs glob on patterns mixing ** and ***; WcMatch without SYMLINKS never descends a link.', E3NOTE + ' With FOLLOW on cyclic trees no termination claim (kernel ELOOP bounds the walk).', 'DESIGN.md 4, 6 C06')
 NA_REASON = 'check not built yet in this round of work (planned engine per DESIGN.md section 6); not claimed until its check exists'
 ids = [json.loads(l)['id'] for l in open('/verif/properties.jsonl')]
 man = {
